@@ -112,8 +112,15 @@ func (o *vHObj) ListAt(fis []os.FileInfo, off int64) (int, error) {
 	return n, nil
 }
 
+// vCloseMayFail: Close of handler objects / model files may report an error
+// (a failing flush or commit); the object counts as closed all the same.
+var vCloseMayFail bool
+
 func (o *vHObj) Close() error {
 	o.closed++
+	if vCloseMayFail && vAns(2) == 1 {
+		return ErrSSHFxFailure
+	}
 	return nil
 }
 
